@@ -38,7 +38,7 @@ type Cmd struct {
 	Op   string `json:"op"`             // "rel" | "env"
 	C    int    `json:"c,omitempty"`    // connection (0 for S, D, T)
 	Role string `json:"role,omitempty"` // M R W S D T
-	Act  string `json:"act,omitempty"`  // CliConnect CliSend CliHalfClose CliClose StartShutdown TimerFire
+	Act  string `json:"act,omitempty"`  // CliConnect CliSend CliHalfClose CliClose StartShutdown TimerFire OwnerClose
 	Kind string `json:"kind,omitempty"`
 	Out  string `json:"out,omitempty"` // connect hook outcome for rel of u.connect
 }
@@ -65,6 +65,7 @@ type world struct {
 	hookOut           map[int]string // scripted connect hook outcome per connection
 	serveRes          string
 	sdStarted, sdDone bool
+	ownerClosed       bool
 	timerFired        bool
 	rnd               *rand.Rand
 	nconn             int
@@ -408,7 +409,17 @@ func (wd *world) env(act string, c int, kind string) bool {
 		go func() {
 			_ = wd.srv.Shutdown()
 			wd.sdDone = true
+			// observed from outside the library: the call has returned (whatever gates it passed)
+			wd.w.Emit(map[string]any{"ev": "obs", "kind": "shutdown-returned"})
 		}()
+	case "OwnerClose":
+		// the application closes its listener itself before it calls Shutdown
+		if wd.sdStarted || wd.ownerClosed {
+			return false
+		}
+		wd.ownerClosed = true
+		wd.w.Emit(map[string]any{"ev": "env", "act": act})
+		wd.ln.Close()
 	case "TimerFire":
 		// virtual time: the 3 s grace timer fires only if it is armed and was not stopped
 		if !wd.sdStarted || wd.timerFired {
@@ -497,6 +508,9 @@ func (wd *world) end() {
 		if role == "0.S" && (at == "serve.accept!" || wd.serveRes != "-") {
 			done = true
 		}
+		if role == "0.D" && wd.sdDone {
+			done = true // Shutdown has returned, wherever the controller saw it last
+		}
 		if !done {
 			blocked = append(blocked, []string{role, at})
 		}
@@ -574,6 +588,10 @@ func runOne(t *testing.T, w *vh.Writer, sc Schedule, seed int64, randomSteps int
 				}
 			case 10:
 				wd.env("TimerFire", 0, "")
+			case 11:
+				if shutdown && wd.rnd.Intn(3) == 0 {
+					wd.env("OwnerClose", 0, "")
+				}
 			}
 		}
 		// 3. drain: close every client, let everything run out
